@@ -107,6 +107,12 @@ def compare(rep, exe, invocations, label="grouping"):
         if v[0] != "ok":
             rep.disagreements.append({**cj, "impl": "ok", "model": v[0] + (":" + str(v[1])[:80] if len(v) > 1 else "")})
             continue
+        if len(v) > 3:
+            # hypothesis of C11_partition_acyclic (header relation acyclic) / conclusion of C11_traceCovers_of_acyclic on this input
+            rep.count(label + ":acyclicB=" + str(v[2]))
+            rep.count(label + ":traceCovers=" + str(v[3]))
+            if v[2] == "1" and v[3] != "1":
+                rep.disagreements.append({**cj, "what": "C11_traceCovers_of_acyclic contradicted by evaluation (model bug)"})
         mg = groups_of_model(v)
         if len(mg) != len(d.groups):
             rep.disagreements.append({**cj, "impl": f"{len(d.groups)} families", "model": f"{len(mg)} families"})
